@@ -4,6 +4,7 @@ CONSTANTS
   MaxFailures = 2
   DrainOnSuccess = TRUE
   SkipUnchanged = FALSE
+  RearmOnlyAfterTrigger = FALSE
   Strategy = "MASTER"
 INVARIANTS TriggerKept
 CHECK_DEADLOCK FALSE
